@@ -109,6 +109,7 @@ class Conn(object):
         self.tr = None
         self.phase = "open"          # open | closing | aborting | losing | lost
         self.connect_seen = False    # a CONNECT was written
+        self.connect_pending = False # ... and not yet answered by a CONNACK
         self.clean = None
         self.level = 4
         self.keepalive = None
@@ -293,6 +294,7 @@ class World(object):
         t = p["t"]
         if t == "CONNECT":
             c.connect_seen = True
+            c.connect_pending = True      # the broker owes this CONNECT one CONNACK
             c.clean = p["clean"]
             c.keepalive = p["keepalive"]
             if p["clean"]:
@@ -306,6 +308,10 @@ class World(object):
                 sh.pub.move_to_end(p["id"])
             else:
                 cur["conn"] = c.idx
+                if cur["state"] == "rec":
+                    # the client repeats a PUBLISH we answered with PUBREC: that PUBREC never
+                    # reached it (or was ignored); a broker answers the repeat again
+                    cur["state"] = "sent"
         elif t == "PUBREL":
             cur = sh.pub.get(p["id"])
             if cur is not None:
@@ -454,6 +460,9 @@ class World(object):
                             (where == "suback" and op in ("subscribe", "unsubscribe")) or
                             (where == "connected" and op == "connect")):
                         self._re_disconnect(c, where)
+                    # an application callback may return whatever it likes; with one Deferred per
+                    # request that value never reaches anybody else
+                    return "consumed-by-application"
                 return None
             r.addBoth(rec)
             return r
@@ -704,6 +713,14 @@ class World(object):
             return self.ev("skip", why="no protocol")
         self._api_connect(c, clean, keepalive, level, extra or {})
 
+    def s_connect_stale(self, a, clean=True, keepalive=0, level=4):
+        """connect() once more on the protocol object whose connection has been lost (it is idle
+        again, as far as the library is concerned).  Only the C04 workloads do this."""
+        c = self.cur.get(a)
+        if c is None or c.phase != "lost":
+            return self.ev("skip", why="protocol not lost")
+        self._api_connect(c, clean, keepalive, level, {})
+
     def s_disconnect(self, a):
         c = self.cur.get(a)
         if c is None:
@@ -762,9 +779,11 @@ class World(object):
     # broker steps
     def s_connack(self, a, rc_=0, sp=False):
         c = self.live.get(a)
-        was = c is not None and c.connect_seen and c.phase == "open"
-        if self._send(a, {"t": "CONNACK", "rc": rc_, "session": sp}) and rc_ == 0 and was \
-                and c.phase == "open" and self.live.get(a) is c:
+        was = c is not None and c.connect_pending and c.phase == "open"
+        sent = self._send(a, {"t": "CONNACK", "rc": rc_, "session": sp})
+        if sent and c is not None:
+            c.connect_pending = False     # (a CONNACK nobody is waiting for is just a foreign packet)
+        if sent and rc_ == 0 and was and c.phase == "open" and self.live.get(a) is c:
             c.connack_ok = True
 
     def s_ack(self, a, kind, pick="old", codes=None):
